@@ -200,6 +200,8 @@ class Arr:
         for a in self.axes:
             if a[0] == "fix":
                 out.append(a[1])
+            elif isinstance(a[1], int) and a[1] == 0:
+                out.append(next(it))  # keeps Select terms usable as E-matching patterns
             else:
                 out.append(a[1] + next(it))
         return out
